@@ -22,6 +22,8 @@ THOROUGH = QUICK + [
 
 
 def run(ctx):
+    if getattr(ctx, "replay_path", None):
+        return pc.replay(ctx, "C04", "q")
     n = 400000 if ctx.thorough else 40000
     rnd = [("rnd-plain", n, ["req=0:3115b50900", "req=1:3115b50900", "req=2:3115b50900:2", "buslost=1", "readerr=1"])]
     pc.run_configs(ctx, "C04", "q", THOROUGH if ctx.thorough else QUICK, random_runs=rnd,
